@@ -5,8 +5,75 @@
    [draw] streams are the recorded answers of rng.permutation / rng.choice / heappop / argsort. *)
 From Coq Require Import ZArith List Bool Permutation.
 From Batchie Require Import Lib.Sexp Model.Encode Model.Screen Model.Retro Model.Pairwise Model.RetroHoldout
-  Model.RetroInit Proofs.C11Lib Proofs.C11Gen Proofs.C11Smooth Proofs.C11Select Proofs.C11Holdout Proofs.C11Init.
+  Model.RetroInit Proofs.C11Lib Proofs.C11Gen Proofs.C11Smooth Proofs.C11Select Proofs.C11Holdout Proofs.C11Init
+  Generated.SrcRetro Proofs.C11Source.
 Import ListNotations.
+
+(* ---- the models are what the source says NOW ----
+   `src_*` (Generated/SrcRetro.v) are WHOLE functions of /repo's current working tree, re-translated statement by
+   statement on every run (harness/py2gal.py, configurations in harness/src_functions.py); each equals the
+   hand-written model for ALL inputs, so the theorems below are theorems about the translated source.
+   Trusted: the translator and the primitives listed in the configurations (Model/Retro.v, last section). *)
+
+(* RetrospectivePlateGenerator.generate_plates (core.py): split into unobserved / observed, `is None` checks,
+   to_screen, recombination new ++ observed - for EVERY inner generator f (the abstract self._generate_plates),
+   in particular the shipped ones the conservation theorems are about *)
+Theorem C11_model_is_source_generate_plates : forall rows ds,
+  (forall f : inner, src_generate_plates f rows ds = wrap f rows ds) /\
+  (forall g, src_generate_plates (generate_inner g) rows ds = generate_plates g rows ds).
+Proof. exact src_generate_plates_is_model. Qed.
+Print Assumptions C11_model_is_source_generate_plates.
+
+(* RetrospectivePlateSmoother.smooth_plates (core.py), likewise *)
+Theorem C11_model_is_source_smooth_plates : forall rows ds,
+  (forall f : inner, src_smooth_plates f rows ds = wrap f rows ds) /\
+  (forall sm, src_smooth_plates (smooth_inner sm) rows ds = smooth_plates sm rows ds).
+Proof. exact src_smooth_plates_is_model. Qed.
+Print Assumptions C11_model_is_source_smooth_plates.
+
+(* MergeMinPlateSmoother._get_plate_sample_id (retrospective.py): the `len(...) > 1` test, the raise, the `[0]`;
+   on the plate named p of the screen (a Plate is its selection vector) it is the model's [plate_sample] *)
+Theorem C11_model_is_source_merge_min_get_plate_sample_id : forall rows p,
+  src_merge_min_get_plate_sample_id rows (plate_vec p rows) = plate_sample p rows.
+Proof. exact src_get_plate_sample_id_is_model. Qed.
+Print Assumptions C11_model_is_source_merge_min_get_plate_sample_id.
+
+(* MergeMinPlateSmoother._smooth_plates (retrospective.py): the loop over the samples, the comprehension building the
+   heap (through the translated _get_plate_sample_id), the `while True:` with its two `break`s (len <= 1; sum of the two
+   smallest sizes > min_size), the two heappops, the merge of the second smallest WITH the smallest, the push.
+   The `while` is translated into recursion on the explicit fuel [fuel] (Err 97 if it ran out, which is not a Python
+   behaviour); with more fuel than the screen has experiments (e.g. fuel = S (length rows)) the translation equals
+   the model for every min_size, screen and answer stream - the model's own fuel (the heap size) is sufficient *)
+Theorem C11_model_is_source_merge_min_smooth_plates : forall min_size rows ds fuel,
+  length rows < fuel ->
+  src_merge_min_smooth_plates min_size rows ds fuel = merge_min min_size rows ds.
+Proof. exact src_merge_min_is_model. Qed.
+Print Assumptions C11_model_is_source_merge_min_smooth_plates.
+
+(* MergeTopBottomPlateSmoother._get_plate_sample_id (same text as MergeMin's, translated on its own) *)
+Theorem C11_model_is_source_merge_tb_get_plate_sample_id : forall rows p,
+  src_merge_tb_get_plate_sample_id rows (plate_vec p rows) = plate_sample p rows.
+Proof. exact src_tb_get_plate_sample_id_is_model. Qed.
+Print Assumptions C11_model_is_source_merge_tb_get_plate_sample_id.
+
+(* MergeTopBottomPlateSmoother._smooth_plates (retrospective.py): the loop over the samples, `for i in
+   range(self.n_iterations)` with its `break` at <= 1 plates, the comprehension, the sort by size, halfway =
+   floor(len / 2), the zip of the first half with the reversed list's first half, bigger.merge(smaller) for each
+   pair - equal to the model for every n_iterations and screen (no fuel: both loops are `for` loops) *)
+Theorem C11_model_is_source_merge_tb_smooth_plates : forall n_iter rows,
+  src_merge_tb_smooth_plates n_iter rows = merge_tb n_iter rows.
+Proof. exact src_merge_tb_is_model. Qed.
+Print Assumptions C11_model_is_source_merge_tb_smooth_plates.
+
+(* create_plate_balanced_holdout_set_among_masked_plates (retrospective.py): the range check and its raise, the
+   all-false selection vector, the loop over the plates, `if plate.is_observed: continue`, the count
+   math.ceil(plate.size * fraction), the rng.choice of that many of the plate's indices, the update
+   selection_vector[indices] = True, the two Screen(...) calls (rows not selected; rows selected, marked observed),
+   the returned pair - equal to the model for every fraction num/den, count mode, screen and answer stream *)
+Theorem C11_model_is_source_create_plate_balanced_holdout_set_among_masked_plates : forall num den counts rows ds,
+  src_balanced_holdout num den counts rows ds = holdout_balanced num den counts rows ds.
+Proof. exact src_balanced_holdout_is_model. Qed.
+Print Assumptions C11_model_is_source_create_plate_balanced_holdout_set_among_masked_plates.
 
 (* every shipped generator (PlatePermutation, SampleSegregating in both variants, Pairwise), every
    oracle answer: the output is new ++ (observed input rows, unchanged, still observed), the new rows
